@@ -4,6 +4,7 @@ package main
 
 import (
 	"fmt"
+	"runtime"
 	"net/http"
 	"reflect"
 	"sort"
@@ -352,6 +353,8 @@ func wrapInts(m int) []int {
 	return out
 }
 
+var histCount int
+
 func famHistWant(want string) family {
 	return func(o *Out, r R, tier string) {
 		nset, maxLen := 12, 4
@@ -451,6 +454,7 @@ func famHistWant(want string) family {
 						}
 					}
 				}()
+				histCount++
 				obs := SL{observe(m, nil, probes)}
 				opsx := SL{}
 				for _, op := range ops {
@@ -465,6 +469,9 @@ func famHistWant(want string) family {
 							arg = &cc
 						}
 						err = m.Reconfigure(arg)
+						if histCount%8 == 0 { // every eighth history runs with a garbage collection after each reconfiguration
+							runtime.GC()
+						}
 						opsx = append(opsx, L(Y("reconf"), cfgSX(arg), Y(op.label)))
 					}
 					obs = append(obs, observe(m, err, probes))
